@@ -150,8 +150,8 @@ func specChooser(c chooserCase, n int, removed uint64, deleted []uint64) (string
 			return "removed-without-rule", fmt.Sprintf("chunk #%d (size %d, newest ts %d, partition size %d) removed; neither above MAXSIZE nor older than BEFORE", i, k.Size, k.MaxTs, size)
 		}
 		size -= uint64(k.Size)
-		if !byTime && size < c.Min {
-			return "below-minsize", fmt.Sprintf("size-driven removal of chunk #%d leaves %d < MINSIZE %d", i, size, c.Min)
+		if size < c.Min {
+			return "below-minsize", fmt.Sprintf("removal of chunk #%d leaves %d < MINSIZE %d", i, size, c.Min)
 		}
 	}
 	if removed != total-size {
@@ -1033,11 +1033,6 @@ func judgeSys(secName string, sec *vh.Section, c sysCase, r sysResult, answers [
 			deferred = append(deferred, vh.SpecFailure{Section: secName, Kind: kind, Input: c, Impl: impl, Spec: spec, Model: mdl, ImplEqModel: eq, Finding: finding, What: what})
 		}
 		// what the real run removed, per partition
-		type removal struct {
-			chunks int
-			bytes  uint64
-			gone   bool
-		}
 		actual := map[int]removal{}
 		for i := range before {
 			if !before[i].Exists {
@@ -1123,11 +1118,11 @@ func judgeSys(secName string, sec *vh.Section, c sysCase, r sysResult, answers [
 					}
 				}
 				size -= uint64(ch.Size)
-				if !byTime && st.Min != nil && size < *st.Min {
+				if st.Min != nil && size < *st.Min {
 					if phase2 {
 						failLater("below-minsize-global", what+fmt.Sprintf(": the MAXDBSIZE pass leaves %d < MINSIZE", size), a.layout(), b.layout(), matched, eq, "F32")
 					} else {
-						failLater("below-minsize", what+fmt.Sprintf(": size-driven removal leaves %d < MINSIZE", size), a.layout(), b.layout(), matched, eq, "")
+						failLater("below-minsize", what+fmt.Sprintf(": the removal leaves %d < MINSIZE", size), a.layout(), b.layout(), matched, eq, "")
 					}
 				}
 			}
@@ -1173,6 +1168,10 @@ func judgeSys(secName string, sec *vh.Section, c sysCase, r sysResult, answers [
 				case (okd != oka || d.Diff != a.bytes || d.Deleted != a.gone) && (ma.Tie || dryModel.Tie) && st.MaxDB != nil && users[i] == 0:
 					fail("dryrun-tie", desc+": DRYRUN and the run pick different partitions among candidates with equal latest timestamps", fmt.Sprint(okd, d), fmt.Sprint(oka, a), strings.Join(dryModel.Outcomes, " ; "), bothEq, "F31")
 				case !okd && !oka:
+				case !okd && oka && a.gone && st.MaxDB != nil && bothEq && inUseEmptied(actual, users, rep, c):
+					// class of finding F77: the pass emptied a partition somebody holds, could not drop it, did not report or
+					// subtract it, and went on to the next partition, which the dry run had not announced
+					fail("dryrun-in-use-divergence", desc+": the run drops a partition the dry run did not announce, after silently emptying a partition that is in use", fmt.Sprint(okd, d), fmt.Sprint(oka, a), strings.Join(dryModel.Outcomes, " ; "), bothEq, "F77")
 				case okd && !oka && users[i] > 0 && d.Deleted:
 					// the dry run announces the removal of a partition that is in use; the run then refuses: outside the
 					// property's claim (no statement can know future users) — counted, not a failure
@@ -1217,6 +1216,31 @@ func judgeSys(secName string, sec *vh.Section, c sysCase, r sysResult, answers [
 			fail("reader-does-not-continue", fmt.Sprintf("page 2 of a read positioned after event %v inside removed data", ro.Page1), fmt.Sprintf("events=%v err=%q", ro.Page2, ro.Err), fmt.Sprintf("events=%v", ro.Expected), mdl, eq, finding)
 		}
 	}
+}
+
+// inUseEmptied: some partition that is held by somebody else lost chunks in this run, still exists, and the run's own
+// report has no line for it
+type removal struct {
+	chunks int
+	bytes  uint64
+	gone   bool
+}
+
+func inUseEmptied(actual map[int]removal, users []int, rep []repLine, c sysCase) bool {
+	for i, a := range actual {
+		if users[i] > 0 && a.chunks > 0 && !a.gone {
+			reported := false
+			for _, l := range rep {
+				if tagsKey(l.Tags) == tagsKey(c.Parts[i].Tags) {
+					reported = true
+				}
+			}
+			if !reported {
+				return true
+			}
+		}
+	}
+	return false
 }
 
 func u64p(v uint64) *uint64 { return &v }
@@ -1406,6 +1430,13 @@ func aimStmt(rng *vh.Rng, c sysCase, lay []partObs) stmtSpec {
 	}
 	if rng.Chance(1, 2) && len(tss) > 0 {
 		st.Before = i64p(tss[rng.Intn(len(tss))] + int64(rng.PickI([]int{-1, 0, 0, 0, 1})))
+	}
+	if st.Before != nil && len(st.Sel) > 0 && rng.Chance(1, 4) {
+		// a partition that is already smaller than MINSIZE must not lose anything to BEFORE either
+		st.Min = u64p(lay[st.Sel[rng.Intn(len(st.Sel))]].size() + uint64(rng.Range(1, 60)))
+		if rng.Bool() {
+			st.Max = nil
+		}
 	}
 	if rng.Chance(1, 3) {
 		st.MaxDB = u64p(pickSize())
@@ -1795,6 +1826,10 @@ func replay(path string) {
 		sectionTrunc2Race()
 	case "restartleft":
 		sectionRestartLeft()
+	case "unflushed":
+		sectionUnflushed()
+	case "lightfill":
+		sectionLightFill()
 	case "hull":
 		sectionHull()
 	default:
@@ -2299,6 +2334,128 @@ func sectionRestartLeft() {
 }
 
 // ---------------------------------------------------------------------------------------------
+// unflushed: a TRUNCATE right after an acknowledged write, inside the flush period
+
+func sectionUnflushed() {
+	sec := res.Section("unflushed", "spec-search",
+		"a server with a long flush period (WriteFlushMs 1500); one write request into a NEW partition is acknowledged; a TRUNCATE follows at once - without bounds, with a MAXSIZE the partition is far below, as DRYRUN + real run; after the flush period the partition must exist and hold the acknowledged events (a partition is dropped only when it holds no data; acknowledged events are data)")
+	defer res.Done(sec)
+	for _, form := range []string{"", " maxsize 100000", " before \"1\""} {
+		dir := lrsrv.NewDir()
+		srv, err := lrsrv.Start(dir, lrsrv.Opts{MaxChunkSize: 4000, WriteFlushMs: 1500})
+		if err != nil {
+			res.Note("unflushed: %v", err)
+			os.RemoveAll(dir)
+			continue
+		}
+		tags := "g=f,p=1"
+		var evs []*api.LogEvent
+		for i := 1; i <= 3; i++ {
+			evs = append(evs, &api.LogEvent{Timestamp: int64(100 + i), Message: fmt.Sprintf("%04d_", i)})
+		}
+		var wr api.WriteResult
+		werr := srv.Client.Write(context.Background(), tags, "", evs, &wr)
+		q := "truncate {" + tags + "}" + form
+		dry, _ := srv.Exec(strings.Replace(q, "truncate ", "truncate dryrun ", 1))
+		out, xerr := srv.Exec(q)
+		time.Sleep(1800 * time.Millisecond)
+		settle(srv, tags, -1)
+		after := observe(srv, tags)
+		res.Eval(sec, q)
+		in := map[string]interface{}{"flush_ms": 1500, "write": "3 events into the new partition " + tags + ", acknowledged", "then_at_once": []string{strings.Replace(q, "truncate ", "truncate dryrun ", 1), q}, "then": "wait 1.8 s, select"}
+		rs, rerr := readSeqs(after.Read)
+		if werr == nil && wr.Err == nil && (xerr != nil || !after.Exists || rerr != "" || fmt.Sprint(rs) != "[1 2 3]") {
+			// class of finding F76: the statement ran while the partition's only data was acknowledged but not yet flushed
+			// (Journal.Size() counts confirmed bytes only, so the partition looked empty to the size == 0 branch and to deleteJournal)
+			f := vh.SpecFailure{Section: "unflushed", Kind: "acknowledged-unflushed-dropped", Input: in, Impl: fmt.Sprintf("exists=%v read=%v report=%q dry=%q err=%v", after.Exists, after.Read, strings.TrimSpace(out), strings.TrimSpace(dry), xerr), Spec: "partition exists, read = [1 2 3]",
+				Model: "phase1Part with size = 0 (the model's size is what Size() answers): dropped", ImplEqModel: true,
+				What: "a TRUNCATE issued inside the flush period after an acknowledged write into a new partition drops the partition with the acknowledged events"}
+			if !after.Exists && len(after.Read) == 0 && strings.Contains(out, "0(YES)") {
+				f.Finding = "F76"
+			}
+			res.SpecFail(f)
+		}
+		srv.Stop()
+		os.RemoveAll(dir)
+	}
+}
+
+// ---------------------------------------------------------------------------------------------
+// lightfill: TRUNCATE BEFORE after a start without the time-index file, over a chunk whose newest event is in its middle
+
+func sectionLightFill() {
+	sec := res.Section("lightfill", "spec-search",
+		"one partition: a first chunk written by one batch 1001..1004, 5000, 1006..1009 (its newest event in the middle), a second chunk 6001..; graceful stop; the time index file cindex.dat is removed (what a crash before its first save, or its loss, leaves); restart; TRUNCATE BEFORE \"2000\": the first chunk holds an event not older than 2000 and must stay. Control: the same without removing the file")
+	defer res.Done(sec)
+	for _, drop := range []bool{false, true} {
+		dir := lrsrv.NewDir()
+		srv, err := lrsrv.Start(dir, lrsrv.Opts{MaxChunkSize: 170})
+		if err != nil {
+			res.Note("lightfill: %v", err)
+			os.RemoveAll(dir)
+			continue
+		}
+		tags := "g=l,p=1"
+		write := func(srv *lrsrv.Srv, tss []int64, from int) {
+			var evs []*api.LogEvent
+			for k, t := range tss {
+				evs = append(evs, &api.LogEvent{Timestamp: t, Message: fmt.Sprintf("%04d_", from+k)})
+			}
+			var wr api.WriteResult
+			srv.Client.Write(context.Background(), tags, "", evs, &wr)
+		}
+		write(srv, []int64{1001, 1002, 1003, 1004, 5000, 1006, 1007, 1008, 1009}, 1)
+		srv.FlushWait()
+		settle(srv, tags, 9)
+		write(srv, []int64{6001, 6002, 6003}, 10)
+		srv.FlushWait()
+		settle(srv, tags, 12)
+		before := observe(srv, tags)
+		srv.Stop()
+		if len(before.Chunks) != 2 || len(before.Chunks[0].Seqs) != 9 {
+			res.Note("lightfill: layout is not 9 + 3 events in two chunks: %s", before.layout())
+			os.RemoveAll(dir)
+			continue
+		}
+		if drop {
+			os.Remove(filepath.Join(dir, "cindex", "cindex.dat"))
+		}
+		srv2, err := lrsrv.Start(dir, lrsrv.Opts{MaxChunkSize: 170})
+		if err != nil {
+			res.SpecFail(vh.SpecFailure{Section: "lightfill", Kind: "restart-refused", Input: map[string]interface{}{"cindex_removed": drop}, Impl: err.Error(), Spec: "starts", What: "the server does not start"})
+			os.RemoveAll(dir)
+			continue
+		}
+		mid := observe(srv2, tags)
+		q := "truncate {" + tags + "} before \"2000\""
+		out, xerr := srv2.Exec(q)
+		time.Sleep(15 * time.Millisecond)
+		after := observe(srv2, tags)
+		res.Eval(sec, fmt.Sprint(q, drop))
+		in := map[string]interface{}{"chunk_1": "one batch, timestamps 1001 1002 1003 1004 5000 1006 1007 1008 1009", "chunk_2": "6001 6002 6003", "cindex_dat_removed_before_restart": drop,
+			"hull_after_restart": fmt.Sprintf("chunk 1 newest timestamp claimed: %d", func() int64 {
+				if len(mid.Chunks) > 0 {
+					return mid.Chunks[0].MaxTs
+				}
+				return -1
+			}()), "stmt": q}
+		if xerr != nil || fmt.Sprint(after.seqs()) != fmt.Sprint(before.seqs()) {
+			// class of finding F78: the time index had no entry for the chunk at start-up and rebuilt its hull from the chunk's
+			// first and last record only (lightFill), and the chunk's newest event is neither
+			f := vh.SpecFailure{Section: "lightfill", Kind: "before-removed-newer-after-index-loss", Input: in, Impl: fmt.Sprintf("%v report=%q err=%v", after.seqs(), strings.TrimSpace(out), xerr), Spec: fmt.Sprint(before.seqs()),
+				Model: "choose on the claimed hull (maxTs 1009 < 2000) takes the chunk; before_removes_only_older does not apply: the hull was not built by chkInfo.update from the write notifications", ImplEqModel: true,
+				What: "TRUNCATE BEFORE t removed a chunk holding an event not older than t: after a start without cindex.dat the chunk's hull is its first and last record only"}
+			if drop && fmt.Sprint(after.seqs()) == "[10 11 12]" {
+				f.Finding = "F78"
+			}
+			res.SpecFail(f)
+		}
+		srv2.Stop()
+		os.RemoveAll(dir)
+	}
+}
+
+// ---------------------------------------------------------------------------------------------
 // sizerace: a write confirmed between `size := jrnl.Size()` and the loops of truncate (hook partition.truncate.sized)
 
 func sectionSizeRace() {
@@ -2432,5 +2589,7 @@ func main() {
 	sectionBeforeRace()
 	sectionTrunc2Race()
 	sectionRestartLeft()
+	sectionUnflushed()
+	sectionLightFill()
 	res.Write(args.Out)
 }
